@@ -390,6 +390,53 @@ fn tokenize(text: &str) -> Result<Vec<Tok>, String> {
     Ok(out)
 }
 
+/// `gv golex`: this file's tokenizer on texts read from stdin (`id<TAB>escaped text` per line), one line
+/// `id<TAB>kind:text…` out (identifiers and keywords `i:`, numbers `n:`, strings decoded `s:`, symbols `y:`, joined by
+/// U+0001; line ends and the end marker are left out) — the second, independent lexer of the `golex` tie
+pub fn golex_main() {
+    use std::io::{BufRead, Write};
+    let stdin = std::io::stdin();
+    let out = std::io::stdout();
+    let mut out = std::io::BufWriter::new(out.lock());
+    for l in stdin.lock().lines() {
+        let Ok(l) = l else { break };
+        let Some((id, esc)) = l.split_once('\t') else { continue };
+        let mut text = String::new();
+        let mut it = esc.chars();
+        while let Some(c) = it.next() {
+            if c == '\\' {
+                match it.next() {
+                    Some('n') => text.push('\n'),
+                    Some('t') => text.push('\t'),
+                    Some('r') => text.push('\r'),
+                    Some(o) => text.push(o),
+                    None => {}
+                }
+            } else {
+                text.push(c);
+            }
+        }
+        match tokenize(&text) {
+            Ok(ts) => {
+                let parts: Vec<String> = ts
+                    .iter()
+                    .filter_map(|t| match t {
+                        Tok::Ident(s) => Some(format!("i:{}", s)),
+                        Tok::Num(s) => Some(format!("n:{}", s)),
+                        Tok::Str(s) => Some(format!("s:{}", s)),
+                        Tok::Sym(s) => Some(format!("y:{}", s)),
+                        Tok::Nl | Tok::Eof => None,
+                    })
+                    .collect();
+                let _ = writeln!(out, "{}\tok\t{}", id, crate::sexp::esc_line(&parts.join("\u{1}")));
+            }
+            Err(e) => {
+                let _ = writeln!(out, "{}\terr\t{}", id, crate::sexp::esc_line(&e));
+            }
+        }
+    }
+}
+
 // ------------------------------------------------------------------ parser
 
 struct P {
